@@ -83,6 +83,23 @@ func init() {
 		}
 		panic(inconclusive{"MustMarshalJSON of non-pointer"})
 	})
+	reg("github.com/cosmos/cosmos-sdk/types.ValidateDenom", func(e *Engine, fn *ssa.Function, a []Value) Value {
+		s := toSeq(a[0])
+		var ok *T
+		if c, isC := goStr(s); isC {
+			ok = BoolConst(regexp.MustCompile(`^[a-zA-Z][a-zA-Z0-9/:._-]{2,127}$`).MatchString(c))
+		} else {
+			t, err := regexMatchTerm(`^[a-zA-Z][a-zA-Z0-9/:._-]{2,127}$`, s)
+			if err != nil {
+				panic(inconclusive{"regex: " + err.Error()})
+			}
+			ok = t
+		}
+		if e.branch(ok) {
+			return nil
+		}
+		return e.newErr("invalid denom")
+	})
 	reg(ibcgo+"modules/core/keeper.isEmpty", func(e *Engine, fn *ssa.Function, a []Value) Value {
 		return BoolConst(isNilVal(a[0]))
 	})
